@@ -1344,6 +1344,11 @@ Hwrite(int32 access_id, int32 length, const void *data)
     if (access_rec == (accrec_t *)NULL || !(access_rec->access & DFACC_WRITE) || data == NULL)
         HGOTO_ERROR(DFE_ARGS, FAIL);
 
+    /* the position after the write must be representable as a 32-bit offset,
+       for every kind of element (the special write functions advance posn by length) */
+    if (length > 0 && access_rec->posn > INT32_MAX - length)
+        HGOTO_ERROR(DFE_BADLEN, FAIL);
+
     /* if special elt, call special write function */
     if (access_rec->special) {
         ret_value = (*access_rec->special_func->write)(access_rec, length, data);
